@@ -145,7 +145,7 @@ def _name_hosts(draw, idn=True, upper=True, max_sub=2, tlds=TLDS, labels=ASCII_L
     return ".".join(out + [tld])
 
 
-PORTS = st.one_of(st.none(), st.none(), st.none(), st.sampled_from(["", "80", "443", "8080", "8443", "1", "65535"]),
+PORTS = st.one_of(st.none(), st.none(), st.none(), st.sampled_from(["", "80", "443", "8080", "8443", "1", "65535", "0", "080", "00443", "008080", "00"]),
                   st.integers(1, 65535).map(str))
 
 
